@@ -457,8 +457,10 @@ def run_check(check_id, tier, seed, replay=None):
     }
     if errors:
         ev['coverage']['harness_errors'] = errors[:5]
-    os.makedirs(os.path.join(VERIF_ROOT, 'evidence'), exist_ok=True)
-    with open(os.path.join(VERIF_ROOT, 'evidence', check_id + '.json'), 'w') as f:
+    # sensitivity runs against a scratch copy (VERIF_REPO) must not overwrite the evidence of the real tree
+    evdir = os.environ.get('VERIF_EVIDENCE_DIR') or os.path.join(VERIF_ROOT, 'evidence')
+    os.makedirs(evdir, exist_ok=True)
+    with open(os.path.join(evdir, check_id + '.json'), 'w') as f:
         json.dump(ev, f, indent=1, sort_keys=True)
         f.write('\n')
 
